@@ -63,12 +63,22 @@ def gen_history(rng: _pyrandom.Random, max_ops: int = 12, max_rows: int = 40, ma
     cfg = gen_cfg(rng, objects)
     n_ops = rng.randint(1, max_ops)
     ops: list[dict] = []
+    wide = rng.random() < big / 2
+    if wide:
+        # a node with more than 255 entries: branching factor 300, near-duplicates that do not merge
+        F = max(F, 24)
+        cfg["bf"] = 300
+        cfg["thr"] = rng.choice([0.95, 1.0])
+        cfg["crit"] = rng.choice(["diameter", "radius"])
     weights = weights or {"fit": 6, "refine": 2, "recluster": 2, "setmerge": 2, "setthr": 1, "setbf": 1, "delint": 1, "reset": 1}
     names = [k for k in weights if k in allow]
     for i in range(n_ops):
         name = "fit" if i == 0 else rng.choices(names, [weights[k] for k in names])[0]
         if name == "fit":
-            if rng.random() < big:
+            if wide and i == 0:
+                proto = [1 if rng.random() < 0.7 else 0 for _ in range(F)]
+                rows = [[b ^ (1 if rng.random() < 0.04 else 0) for b in proto] for _ in range(rng.choice([310, 330]))]
+            elif rng.random() < big:
                 # a large tight group: clusters that cross 127/128 and 255/256 members (width promotion)
                 proto = [1 if rng.random() < 0.6 else 0 for _ in range(F)]
                 nbig = rng.choice([130, 200, 257, 300])
